@@ -35,7 +35,7 @@ var checks = map[string]checkDef{
 	"C08": {pkg: "verif/mc/checks/c08", shapes: []string{"mini", "person", "flat24", "document"}},
 	"C09": {pkg: "verif/mc/checks/c09", shapes: []string{"mini", "person"}},
 	"C10": {pkg: "verif/mc/checks/c10", shapes: []string{"mini", "person", "flat24", "document"}},
-	"C11": {pkg: "verif/mc/checks/c11", shapes: []string{"mini", "person", "flat24"}},
+	"C11": {pkg: "verif/mc/checks/c11", shapes: []string{"mini", "person", "flat24", "flat3"}},
 	"C12": {pkg: "verif/mc/checks/c12", shapes: []string{"flat24", "person", "document"}},
 	"C13": {pkg: "verif/mc/checks/c13", shapes: []string{"mini", "flat3", "flat24"}, modfile: "go.sched.mod"},
 	"C14": {pkg: "verif/mc/checks/c14"},
